@@ -668,3 +668,62 @@ func (r *Report) LoopContinues(id string, fn *ssa.Function, cond Check, min int)
 	}
 	r.OK(key, rule, r.P.Pos(fn.Pos()), fmt.Sprintf("%d condition edge(s)", len(edges)), true)
 }
+
+// EachIteration: in the (innermost) loop of fn that contains an instruction matching pred, every path from the loop header
+// through the body back to the header executes such an instruction: no element is skipped (leaving the loop or the
+// function — an error return — is allowed).
+func (r *Report) EachIteration(id string, fn *ssa.Function, what string, pred func(ssa.Instruction) bool) {
+	rule := "ORDER: every iteration of the loop executes [" + what + "] before it goes on with the next element"
+	if fn == nil {
+		r.Lost(id, rule, "anchored function not found")
+		return
+	}
+	key := id + " @ " + r.P.FuncName(fn)
+	blocked := map[*ssa.BasicBlock]bool{}
+	for _, b := range fn.Blocks {
+		for _, in := range b.Instrs {
+			if pred(in) {
+				blocked[b] = true
+			}
+		}
+	}
+	r.Sites += len(blocked)
+	if len(blocked) == 0 {
+		r.Bad(key, rule, r.P.Pos(fn.Pos()), "no such instruction in the function")
+		return
+	}
+	loops := Loops(fn)
+	var l *Loop
+	for b := range blocked {
+		if x := InnermostLoop(loops, b); x != nil && (l == nil || len(x.Body) < len(l.Body)) {
+			l = x
+		}
+	}
+	if l == nil {
+		r.Bad(key, rule, r.P.Pos(fn.Pos()), "the instruction is not inside a loop")
+		return
+	}
+	for _, s := range l.Header.Succs {
+		if !l.Body[s] || blocked[s] {
+			continue
+		}
+		seen := map[*ssa.BasicBlock]bool{s: true}
+		stack := []*ssa.BasicBlock{s}
+		for len(stack) > 0 {
+			b := stack[len(stack)-1]
+			stack = stack[:len(stack)-1]
+			for _, n := range b.Succs {
+				if n == l.Header {
+					r.Bad(key, rule, r.P.Pos(blockPos(b)), "the next iteration is reachable from here without executing ["+what+"]: an element is skipped")
+					return
+				}
+				if !l.Body[n] || blocked[n] || seen[n] {
+					continue
+				}
+				seen[n] = true
+				stack = append(stack, n)
+			}
+		}
+	}
+	r.OK(key, rule, r.P.Pos(fn.Pos()), "", true)
+}
